@@ -44,6 +44,12 @@ MISSED = {  # seed -> (round, what the miss changed)
  'C17_s_inplace_radius': ('5', "`coulomb_gaussian_s` overwrites r = 0 entries of the caller's float64 array with a dummy radius. Array-mode calls in `pointwise`, `switch` and `poisson_fd` now share one array per list of radii across all calls of a case and assert it stays as given."),
  'C05_points_alias_origin': ('5', "`AtomGrid.points` returns the internal array when the centre is the origin; a caller editing it in place moves the grid. `structure` now shifts the array it was handed by `.points` and demands an unchanged grid."),
  'C12_sizes_converted_in_place': ('5', "the size→degree converter overwrites the caller's int64 sizes array with degrees. `sequences` now asserts that request arrays still hold what the caller wrote and resolves the same array object a second time (converter and AtomGrid)."),
+ 'C04_linear_codomain_shortcut': ('6', "`LinearFiniteRTransform.transform_1d_grid` sets the new domain to the transform's codomain. Grids from the rule classes always carry the full domain; every case now also transforms the same nodes and weights declared on a strict sub-interval and compares the new domain with the mpmath image of that interval."),
+ 'C05_shell_grid_negative_index': ('6', "`get_shell_grid` newly accepts negative indices but rotates with seed `rotate + index`. `structure` now asks for shell -1: a clean rejection or exactly the last shell."),
+ 'C06_atom_weight_dist_buffer': ('6', "distance table allocated with the dtype of the points: integer-dtype lattice points are truncated in `compute_atom_weight`. Every Becke case now repeats three routes on the points rounded to an integer lattice, as int32/int64 and as float64 (same numbers, or a loud rejection)."),
+ 'C07_preset_rotate_true_seed': ('6', "`rotate=True` (documented: bool or int) mapped to the default seed 37 in `from_preset` instead of being passed through. The constructor cases drew only integers; `True` and `False` were added."),
+ 'C14_moments_screening': ('6', "points with |f·w| ≤ 1e-30 are dropped: linearity in f is lost for tiny function values. Function values are now scaled by 1, 1e-35, 1e-60 or 1e25 (the reference scales with them)."),
+ 'C19_sph_coords_cache': ('6', "`convert_cartesian_to_spherical` memoises the grid's own spherical coordinates but ignores the `center` argument. Atom steps of C19 histories (and C05 `structure`) now convert about the grid centre, another centre and the grid centre again and check the radius column."),
 }
 def main():
     p = os.path.join(HERE, 'DESIGN.md'); s = open(p).read()
@@ -64,14 +70,14 @@ def main():
             c = [x.strip() for x in l.strip('|\n').split('|')]; res[c[1]] = (c[3], c[4])
     out = ["\n\n## 9. Sensitivity: independently seeded changes and mutants\n",
            f"### 9.1 Independently seeded changes ({len(rows)}; each confirmed: demo passes without / fails with the change, unedited suite 598 passed with it)\n",
-           "Written by fresh sub-agents from the property text alone (section 4), in five rounds (rounds 2–5 were told which ideas had been used, nothing else; rounds 3–5 were asked for the hard kinds: state carried between calls, rare input representations, narrow numeric regimes, cooperating edits). `verdict` is the owning *quick* check at seed 1 on the current machinery (`tools/seeded_all.sh`; all labels in `seeded/RESULTS.md`); `first` says whether the first version of the check caught it.\n",
+           "Written by fresh sub-agents from the property text alone (section 4), in six rounds (rounds 2–6 were told which ideas had been used, nothing else; rounds 3–6 were asked for the hard kinds: state carried between calls, rare input representations, narrow numeric regimes, cooperating edits). `verdict` is the owning *quick* check at seed 1 on the current machinery (`tools/seeded_all.sh`; all labels in `seeded/RESULTS.md`); `first` says whether the first version of the check caught it.\n",
            "| change | needs, in order to manifest | verdict | first | first sub-check:label |", "|---|---|---|---|---|"]
     for name, needs in rows:
         v, lab = res.get(name, ('?', ''))
         first = f"MISSED (round {MISSED[name][0]})" if name in MISSED else 'caught'
         out.append(f"| {name} | {needs} | {v} | {first} | {lab.split(' ')[0] if lab else ''} |")
     nm = len(MISSED)
-    out.append(f"\n**{nm} of the {len(rows)} were missed by the first version of the owning check** (round 1: 2 of 37, round 2: 10 of 40, rounds 3 and 4 — asked for the hard kinds — 11 of 20 each, round 5: 7 of 20). Each miss was turned into a stronger generator or oracle, never into a special case for that patch, and all {len(rows)} are now CAUGHT by the quick tier:\n")
+    out.append(f"\n**{nm} of the {len(rows)} were missed by the first version of the owning check** (round 1: 2 of 37, round 2: 10 of 40, rounds 3 and 4 — asked for the hard kinds — 11 of 20 each, round 5: 7 of 20, round 6: 6 of 20). Each miss was turned into a stronger generator or oracle, never into a special case for that patch, and all {len(rows)} are now CAUGHT by the quick tier:\n")
     for name, (rnd, txt) in MISSED.items():
         out.append(f"* `{name}` — {txt}")
     out.append("\nThe lesson that recurred: checks that build a fresh object for every call cannot see state carried between calls. The history dimension (same object called again, arrays re-filled in place, arguments edited between calls, several methods/elements in one process) was added to C01–C04, C09, C13, C14, C17 as cheap extra calls inside each case, in addition to the dedicated history properties C10 and C19.\n")
